@@ -264,7 +264,7 @@ theorem inv5_deployInto {c : Core} (h : Inv5 c) (v : Svc) (slot : Slot) (ts : Li
   · apply inv5_save
     exact ⟨UO_setSvc h.uo (by rw [withLb_name, withLb_opts]; exact hc), h.file⟩
 
-theorem restoreSvc_ok {sn : SvcSnap} {v : Svc} (h : restoreSvc sn = .ok v) : keyOf v = snapKey sn := by
+theorem restoreSvc_ok {good : List (Bytes × Bytes)} {sn : SvcSnap} {v : Svc} (h : restoreSvc good sn = .ok v) : keyOf v = snapKey sn := by
   unfold restoreSvc at h
   split at h
   · cases h
@@ -277,7 +277,7 @@ theorem restoreSvc_ok {sn : SvcSnap} {v : Svc} (h : restoreSvc sn = .ok v) : key
         · cases h
         · cases h; rfl
 
-theorem restoreAll_keys {sns : List SvcSnap} : ∀ {svcs svcs' : List Svc}, restoreAll svcs sns = some svcs' →
+theorem restoreAll_keys {good : List (Bytes × Bytes)} {sns : List SvcSnap} : ∀ {svcs svcs' : List Svc}, restoreAll good svcs sns = some svcs' →
     ∀ k ∈ keys svcs', k ∈ keys svcs ∨ k ∈ sns.map snapKey := by
   induction sns with
   | nil => intro s s' h; simp only [restoreAll, Option.some.injEq] at h; subst h; exact fun k hk => Or.inl hk
@@ -295,15 +295,15 @@ theorem restoreAll_keys {sns : List SvcSnap} : ∀ {svcs svcs' : List Svc}, rest
         · right; rw [hk]; simp
       · right; simp only [List.map_cons, List.mem_cons]; right; exact h1
 
-theorem inv5_restore (file : Option (List SvcSnap)) (hf : ∀ sns, file = some sns → UO (sns.map snapKey)) :
-    Inv5 (restoreCore file) := by
+theorem inv5_restore (good : List (Bytes × Bytes)) (file : Option (List SvcSnap)) (hf : ∀ sns, file = some sns → UO (sns.map snapKey)) :
+    Inv5 (restoreCore good file) := by
   unfold restoreCore
   cases file with
   | none => exact ⟨fun a ha => by simp [keys] at ha, fun sns hs => by cases hs⟩
   | some sns =>
     simp only
     refine ⟨?_, fun sns' hs => hf sns' hs⟩
-    cases hr : restoreAll [] sns with
+    cases hr : restoreAll good [] sns with
     | none => intro a ha; simp [keys] at ha
     | some s' =>
       simp only [Option.getD_some]
@@ -366,9 +366,9 @@ theorem inv5_step {c : Core} (h : Inv5 c) (cmd : Cmd) : Inv5 (stepCore c cmd).1 
     intro v
     apply inv5_save
     exact ⟨UO_subset h.uo fun k hk => (keys_removeSvc_subset _ name k hk).1, h.file⟩
-  | restart =>
+  | restart good =>
     simp only [stepCore]
-    exact inv5_restore c.file h.file
+    exact inv5_restore good c.file h.file
 
 theorem inv5_init : Inv5 Core.init :=
   ⟨fun a ha => by simp [keys, Core.init] at ha, fun sns hs => by simp [Core.init] at hs⟩
